@@ -347,6 +347,25 @@ def p_gateway( ctx ):
                 else:
                     res.bad( src, c_, 'maintain_gateway.%s calls the decorated method outside `with %s:`' % ( wf.name, INST ),
                              'an exception during that call ( time-out, cut connection ) never reaches proxy.__exit__: the faulted gateway is kept and the next read is paired with the late reply still in flight' )
+    # ... a connected gateway being closed is taken out of service BEFORE it waits for its own lock: implicit.close switches the dialect to the
+    # Connection Manager's ahead of `with self:`.  A second thread still holding a reference to this gateway ( it was waiting for the lock when
+    # the first thread's read timed out ) then cannot even produce its request on the out-of-step session; with the switch moved inside the
+    # lock that thread's request goes out and is paired with the late reply to the first thread's ( known finding AA: connected sessions
+    # pair by arrival order )
+    csrc = ctx.src( CLIENT )
+    icl = csrc.get( 'implicit.close', required=False )
+    if icl is not None:
+        sw = [ a for a in ast.walk( icl ) if isinstance( a, ast.Assign ) and any( dotted( t ) == 'self.dialect' for tg in a.targets for t in ( tg.elts if isinstance( tg, ast.Tuple ) else [ tg ] ))
+               and 'Connection_Manager' in txt( a.value ) ]
+        locks = [ w_ for w_ in ast.walk( icl ) if isinstance( w_, ast.With ) and any( dotted( it.context_expr ) == 'self' for it in w_.items ) ]
+        if not sw or not locks:
+            raise AnalysisError( 'implicit.close: the dialect switch or `with self:` not found' )
+        inside = [ a for a in sw if any( any( a is x for x in ast.walk( w_ )) for w_ in locks ) ]
+        if inside or not all( a.lineno < min( w_.lineno for w_ in locks ) for a in sw ):
+            res.bad( csrc, ( inside or sw )[0], 'implicit.close switches the dialect only once it holds the connection\'s lock',
+                     'a thread that took the lock of the gateway being discarded issues its request on the out-of-step connected session and is given the late reply to another thread\'s request' )
+        else:
+            res.ok( csrc, sw[0], 'implicit.close takes the gateway out of service ( dialect switched ) before it waits for the connection\'s lock' )
     og = src.get( 'proxy.open_gateway' )
     w = [ x for x in ast.walk( og ) if isinstance( x, ast.With ) and any( txt( it.context_expr ) == 'self.gateway_lock' for it in x.items ) ]
     cr = [ i for i in ast.walk( og ) if isinstance( i, ast.If ) and pmatch( i.test, 'self.gateway is None' ) and pfind( i, 'self.gateway = self.gateway_class( **_k )' ) or
